@@ -15,7 +15,7 @@ Row.end     'return' | ('stop', block) | 'diverge'
 """
 import re
 
-from .mir import short, tstr
+from .mir import short, tstr, subterms
 
 MAXROWS = 6000
 
@@ -413,6 +413,9 @@ class Sym:
             if pr == '*':
                 continue
             if 'f' in pr:
+                if t[0] == 'agg' and t[1] == 'closure' and isinstance(t[3], list) and pr.get('i') is not None and pr['i'] < len(t[3]):
+                    t = t[3][pr['i']]
+                    continue
                 t = ('f', t, pr['f'])
             elif 'idx' in pr:
                 t = ('idx', t, self.read_local(st, pr['idx']))
@@ -1256,3 +1259,41 @@ def fn_summary_key(facts, body, perm=None, maxrows=48):
         eff = [('%s:=%s' % (cstr(ph(e[1])), cstr(ph(e[2]))) if e[0] == 'store' else cstr(ph(e[1]))) for e in r.effects if e[0] in ('call', 'store')]
         items.append('|'.join(conds) + ' => ' + (cstr(ph(r.ret)) if r.ret is not None else '-') + ' ; ' + ','.join(eff))
     return '\n'.join(sorted(items))
+
+
+def live_in(facts, body, header):
+    """Locals modified by the loop whose value on arrival at the header is read by an iteration (the loop-carried state)."""
+    s0 = Sym(facts, body)
+    mods, _ = s0.loop_mods(header)
+    defaults = {repr(s0.default_local(l)): l for l in mods}
+    out = set()
+    for r in loop_rows(facts, body, header):
+        terms = [c for c, _ in r.conds] + [x for e in r.effects for x in e[1:3] if isinstance(x, tuple)]
+        if r.ret is not None:
+            terms.append(r.ret)
+        for l in mods:
+            v = r.env.get(l)
+            if v is not None and repr(v) not in defaults:
+                terms.append(v)
+        for t in terms:
+            _scan_defaults(t, defaults, out)
+    return out
+
+
+def _scan_defaults(t, defaults, out):
+    if not isinstance(t, tuple):
+        return
+    if t[0] == 'phi':
+        return      # the value an inner loop left in a local; its entry component is not a read
+    if t[0] in ('v', 't') and repr(t) in defaults:
+        out.add(defaults[repr(t)])
+        return
+    for x in t[1:]:
+        if isinstance(x, tuple):
+            _scan_defaults(x, defaults, out)
+        elif isinstance(x, list):
+            for y in x:
+                _scan_defaults(y, defaults, out)
+        elif isinstance(x, dict):
+            for y in x.values():
+                _scan_defaults(y, defaults, out)
